@@ -8,7 +8,7 @@ CONSTANTS
   IdleWhenDrained = TRUE
   AtomicIdleClose = TRUE
   AllowFresh = TRUE
-  EagerFirst = TRUE
+  EagerFirst = FALSE
 INVARIANT TraceInv
 POSTCONDITION TraceAccepted
 CHECK_DEADLOCK FALSE
